@@ -272,11 +272,14 @@ func Shapes() map[string]Params {
 		"v1only": {MatDelay: 1, AllowH: 100, RequireH: 101, EphH: 102, FoundH: 100, Reward: 500, GenSC: g, GenSF: f},
 		"mixed":  {MatDelay: 1, AllowH: 3, RequireH: 6, EphH: 4, FoundH: 100, Reward: 500, GenSC: g, GenSF: f},
 		"v2only": {MatDelay: 2, AllowH: 0, RequireH: 1, EphH: 0, FoundH: 100, Reward: 500, GenSC: g, GenSF: f},
+		// Foundation era inside the horizon: the one-off subsidy at height 2, address updates by the Foundation keys
+		"foundation": {MatDelay: 1, AllowH: 3, RequireH: 6, EphH: 4, FoundH: 2, Reward: 500,
+			GenSC: []AbsOut{{600000, "A"}, {1199, "F"}, {2398, "M"}, {1199, "B"}}, GenSF: f},
 	}
 }
 
 // AllTemplates lists every template of Ledger.tla.
-var AllTemplates = []string{"pay", "pay2", "sf", "form1", "rev1", "prove1", "form2", "rev2", "res2", "renew2", "fnd"}
+var AllTemplates = []string{"pay", "pay2", "sf", "form1", "rev1", "prove1", "form2", "rev2", "res2", "renew2", "fnd", "attest"}
 
 // BaseConfig is a configuration with the standard menus.
 func BaseConfig(p Params) LedgerConfig {
